@@ -65,6 +65,19 @@ def gen_ops(rng, n, vals, big):
             ops.append("rli:%d" % v); size_guess = max(0, size_guess - 1)
         else:
             ops.append("rai:%d" % v)
+        # sorting, iterators, duplicate removal, sorted insertion (a fifth of the scripts' operations come from here)
+        if rng.random() < 0.2:
+            r2 = rng.random()
+            if r2 < 0.35:
+                ops.append("so:%d:%d:%d" % (rng.randint(0, 1), rng.choice([0, 0, 0, 1, 2, idx]), rng.choice([5000, 5000, size_guess, max(0, size_guess - 1), idx, 14])))
+            elif r2 < 0.60:
+                ops.append("it:%d:%d" % (rng.choice([0, 0, 1, idx, max(0, size_guess - 1), size_guess]), rng.choice([1, 1, -1, -1, 2, -2, 3, 7, -5, 2147483647, -2147483648])))
+            elif r2 < 0.72:
+                ops.append("rsd")
+            elif r2 < 0.80:
+                ops.append("rd")
+            else:
+                ops.append("isp:%d" % v); size_guess += 1
     return ops
 
 
@@ -124,10 +137,13 @@ class CHECK(vlib.Check):
     modelled = ("util/Queue.h: representation (_queue kind, _itemCount, _headIndex, _tailIndex, _queueSize, raw slots), "
                 "NextIndex/PrevIndex/InternalizeIndex, EnsureSizeAux, AddTail/AddHead, RemoveHead/RemoveTail(+Multi), "
                 "RemoveItemAt, InsertItemAt, ReplaceItemAt, Clear, Swap, ReverseItemOrdering, Normalize (effect level), "
-                "IndexOf/LastIndexOf, AddTailMulti/AddHeadMulti/InsertItemsAt (array forms and Queue forms incl. a Queue passed as "
+                "IndexOf/LastIndexOf, Sort (effect level: stable sort of the sub-range; the in-place merge algorithm itself is corresponded only), "
+                "QueueIterator, RemoveSortedDuplicateItems/RemoveDuplicateItems, InsertItemAtSortedPosition, "
+                "AddTailMulti/AddHeadMulti/InsertItemsAt (array forms and Queue forms incl. a Queue passed as "
                 "its own argument), CopyFrom, operator=, Remove*InstanceOf, the unused in-object array, and on two queues: "
                 "SwapContents/SwapContentsAux, Plunder (move), operator==, StartsWith/EndsWith. "
-                "Not modelled: Sort/Merge, iterators, AdoptRawDataArray/ReleaseRawDataArray.")
+                "Effect level in the model: Sort/Merge, Normalize's rotation, RemoveAllInstancesOf's compaction loop. "
+                "Not modelled: AdoptRawDataArray/ReleaseRawDataArray, HashCode/CalculateChecksum, lexicographic comparison.")
     premises = ["memory safety and object lifetime of the C++ (observed by ASan/UBSan in the harness only)",
                 "indices/sizes below 2^32 (uint32 wrap-around of counts is not modelled)"]
     rule = ("operation scripts over Queue<int> (trivial) and Queue<Tracked> (owning) generated from random.Random(seed); "
@@ -157,6 +173,16 @@ class CHECK(vlib.Check):
                     for tail in ("es:0:1:0:1", "es:1:1:0:1;es:4:1:0:0", "es:2:0:0:1;es:6:1:0:0", "rtm:2;es:%d:1:0:0" % (a + 1),
                                  "rhm:1;nm", "cl:0;es:3:1:0:0", "ra:1;ia:1:7;rv:0:99", "es:%d:1:2:1;es:%d:1:0:0" % (max(0, a - 2), a + 2)):
                         out.append(("directed", kind + "|" + base.strip(";") + ";" + tail))
+        # directed: Sort around the bubble/merge threshold (12) and well past it, both comparators, sub-ranges, on a
+        # wrapped window; keys x/4 with distinct payloads make stability observable
+        for kind in "TO":
+            for nitems in (0, 1, 2, 3, 11, 12, 13, 23, 24, 25, 40, 64):
+                xs = [rng.choice([0, 1, 2, 3, 4, 5, 6, 7, 8, 9, 10, 11, -1, -2, -3, -4, -5, 13, 17]) for _ in range(nitems)]
+                base = ["atm:" + ",".join(map(str, xs))] if xs else []
+                for pre in ([], ["ah:6", "ah:-7", "rt"], ["es:%d:0:0:0" % (nitems + 9), "ah:2", "ah:9", "ah:4"]):
+                    for so in ("so:0:0:5000", "so:1:0:5000", "so:1:1:%d" % max(0, nitems - 1), "so:0:2:%d" % (nitems // 2 + 8), "rd", "so:0:0:5000;rsd;isp:5;isp:-9;isp:99",
+                               "it:0:1;it:%d:-1;it:0:3;it:%d:-2" % (max(0, nitems - 1), nitems)):
+                        out.append(("directed", kind + "|" + ";".join(base + pre + [so, "g:0"])))
         # directed, two queues: every pairing of storage kinds (none / in-object / heap) and of item counts around
         # the in-object size for SwapContents, Plunder, assignment; then shrink back into the in-object array and grow
         # (stale items must not reappear); a Queue passed as its own argument with and without spare capacity
